@@ -2,9 +2,11 @@ import Driver.Util
 import Driver.Env
 import Tcell.Model.Lookup
 import Tcell.Spec.TermSyntax
+import Tcell.Gen.LookupMode
 /-
 Engine `lookup` (C14), model side: runs the case lines of harness/engines/lookup.go on `Tcell.Lookup.lookup`
-(the pinned, in-place amending model) starting from the registry of gen/db.txt, and prints the same observation.
+(`lookupG Gen.lookupCopies`: the pinned, in-place amending model, or the repaired one when the translator's probe
+finds that the tree under test copies before amending) starting from the registry of gen/db.txt, and prints the same observation.
 Op `T` of the same engine: reference verdict of `Tcell.TermSyntax.wellFormed` on one capability string (Derived lines).
 -/
 namespace Driver.Lookup
@@ -79,7 +81,7 @@ def step (denv : Driver.Env) (s : St) (op : String) : St :=
     let t := synthetic (untok (arg as 0)) (arg as 1) (toInt! (arg as 2)) (arg as 3)
     { s with R := s.R.add s.next t, next := s.next + 1, adds := (s.next, t) :: s.adds }
   | "L" :: as =>
-    let p := lookup s.env s.R (untok (arg as 0)).toList
+    let p := lookupG Gen.lookupCopies s.env s.R (untok (arg as 0)).toList
     let o := match p.1 with
       | none => "nf"
       | some r =>
